@@ -194,6 +194,9 @@ func pinnedC13() []*pgen.Case {
 		mk("pin_update_func_map", "// goverter:converter\ntype Converter interface {\n\t// goverter:update target\n\t// goverter:update:ignoreZeroValueField:nillable\n\t// goverter:map F F | Identity\n\tM(source In, target *Out)\n}\ntype In struct{ F func() int }\ntype Out struct{ F func() int }\nfunc Identity(f func() int) func() int { return f }\n"),
 		mk("pin_update_map_nosource", "func Make() string { return \"x\" }\ntype In struct{ V int }\ntype Out struct{ V int; F string }\n\n// goverter:converter\ntype Converter interface {\n\t// goverter:update target\n\t// goverter:map F | Make\n\tUpdate(source In, target *Out)\n}\n"),
 		mk("pin_update_map_path_nosource", "func Make() string { return \"x\" }\ntype In struct{ V int; N struct{ W string } }\ntype Out struct{ V int; F string; G string; H string }\n\n// goverter:converter\ntype Converter interface {\n\t// goverter:update target\n\t// goverter:update:ignoreZeroValueField\n\t// goverter:map V F | Make\n\t// goverter:map . G | Make\n\t// goverter:map N.W H | Make\n\tUpdate(source In, target *Out)\n\t// goverter:update target\n\t// goverter:map . F | Make\n\t// goverter:ignore G H\n\tUpdatePtr(source *In, target *Out)\n}\n"),
+		mk("pin_vars_two_names", "type In struct{ V int }\ntype Out struct{ V int }\n\n// goverter:variables\nvar (\n\tA, B func(source In) Out\n)\n"),
+		mk("pin_iface_embedded", "type In struct{ V int }\ntype Out struct{ V int }\ntype Other interface{ N(source Out) In }\n\n// goverter:converter\ntype Converter interface {\n\tOther\n\tM(source In) Out\n}\n"),
+		mk("pin_vars_not_func", "type In struct{ V int }\n\n// goverter:variables\nvar (\n\tA int\n\tB = func(source In) In { return source }\n)\n"),
 		mk("pin_selfref_slice", "// goverter:converter\ntype Converter interface {\n\tM(source T) U\n\tN(source MS) MT\n\tP(source L) K\n}\ntype T []T\ntype U []U\ntype MS map[string][]MS\ntype MT map[string][]MT\ntype L []*L\ntype K []*K\n"),
 		mk("pin_selfref_mapkey", "// goverter:converter\ntype Converter interface {\n\tM(source Graph) Graph2\n\tN(source map[string]Graph) map[string]Graph\n}\ntype Graph map[*Graph]bool\ntype Graph2 map[*Graph2]bool\n"),
 		mk("pin_automap_ptr_string", "// goverter:converter\ntype Converter interface {\n\t// goverter:autoMap P\n\tM(source In) Out\n}\ntype In struct{ P *string; Name string }\ntype Out struct{ Name string; Street string }\n"),
